@@ -8,6 +8,7 @@ import (
 	"sort"
 
 	"github.com/pgavlin/dawn/diff"
+	"github.com/pgavlin/dawn/internal/verifhook"
 	"github.com/pgavlin/dawn/label"
 	"go.starlark.net/starlark"
 )
@@ -166,6 +167,10 @@ func (proj *Project) saveIndex() error {
 		return err
 	}
 	defer f.Close()
+	if verifhook.Enabled {
+		verifhook.At("index.created")
+		defer verifhook.At("index.written")
+	}
 
 	index := index{
 		Flags:   make([]*Flag, 0, len(proj.args)),
